@@ -639,20 +639,8 @@ impl LightClientProtocol {
             }
         }
 
-        if peers_with_data.len() < required_peers_count {
-            debug!(
-                "no enough peers for finalizing check points, \
-                requires {} but got {}",
-                required_peers_count,
-                peers_with_data.len()
-            );
-            return;
-        }
-        trace!(
-            "requires {} peers for finalizing check points and got {}",
-            required_peers_count,
-            peers_with_data.len()
-        );
+        // (Peers which contradict the finalized check points are found with any count of peers,
+        // only new check points require enough peers to be finalized.)
         let (last_cpindex, last_check_point) = self.storage.get_last_check_point();
         trace!(
             "finalized check point is {}, {:#x}",
@@ -728,7 +716,7 @@ impl LightClientProtocol {
             }
         }
         if peers_with_data.len() < required_peers_count {
-            trace!(
+            debug!(
                 "no enough peers for finalizing check points after cleaning, \
                 requires {} but got {}",
                 required_peers_count,
